@@ -670,6 +670,9 @@ theorem runWith_rel (special : SpecialFn) (mode : Mode) (sig : Sig) (raw : List 
     Rel R (runWith special mode c sig raw fromScript) := by
   unfold runWith
   refine rel_getConn_bind (fun conn hsel hq => ?_)
+  split
+  · -- refused in subscriber mode: both runs answer the same error and change nothing
+    exact Rel.pure _
   have hd : T conn.db := hsel rfl
   refine Rel.bind (rel_getDb hd) (fun db => ?_)
   extract_lets gate
@@ -1046,6 +1049,8 @@ theorem runWith_select_rel2 (special : SpecialFn) (mode : Mode) (sig : Sig) (raw
     Rel2 R R' (runWith special mode c sig raw fromScript) := by
   unfold runWith
   refine Rel2.bindV (Q := R) (fun conn => T conn.db) (rel_getConn c) (fun s1 s2 h => h.sel rfl) (fun conn hd => ?_)
+  split
+  · exact Rel.weak (Rel.pure _)
   refine Rel2.bind (Q := R) (rel_getDb hd) (fun db => ?_)
   extract_lets gate
   clear_value gate
@@ -1382,15 +1387,21 @@ theorem set_getD_self {α} (l : List α) (d : Nat) (dflt : α) : l.set d (l.getD
     · simp [List.getElem_set_ne hn]
   · exact List.set_eq_of_length_le (Nat.le_of_not_lt h)
 
-/-- SWAPDB with an index that is not a valid database number: the error reply, and the state is unchanged -/
+/-- SWAPDB with an index that is not a valid database number: the error reply (for a subscribed connection: the
+subscriber-mode refusal, which comes first), and the state is unchanged -/
 theorem swapdb_invalid_unchanged (special : SpecialFn) (mode : Mode) (c : Nat) (x y : Bytes) (fromScript : Bool)
     (s : Sys) (e : Err)
     (h : Conv.dbIndex x = .error e ∨ (∃ i, Conv.dbIndex x = .ok i ∧ Conv.dbIndex y = .error e)) :
-    runWith special mode c swapdbSig [x, y] fromScript s = (some (.err (strBytes e)), s) := by
-  unfold runWith
+    runWith special mode c swapdbSig [x, y] fromScript s =
+      (some (if s.refuses c swapdbSig then refusalReply else .err (strBytes e)), s) := by
+  cases hr : s.refuses c swapdbSig with
+  | true => rw [runWith_refused special mode c swapdbSig _ fromScript hr]; rfl
+  | false =>
+  rw [runWith_not_refused special mode c swapdbSig _ fromScript hr]
+  unfold runWithBody
   have hreg : Cmd.regular swapdbSig.name = none := by decide +kernel
   simp only [bind, StateT.bind, getConn_run, getDb_run, hreg, swapdb_apply_invalid x y _ e h, setDb_run, set_getD_self,
-    pure, StateT.pure]
+    pure, StateT.pure, Bool.false_eq_true, if_false]
 
 
 /-! ## asyncio wake-ups: the wake-up proper, then the parser resumes -/
